@@ -33,7 +33,12 @@ static rc::Gen<C> genC() {
     auto lvl = codec == 2 ? rc::gen::weightedOneOf<int>({{5, irange(1, 9)}, {1, rc::gen::element(0, -1, 10, 100)}})
                : codec == 3 ? rc::gen::weightedOneOf<int>({{5, irange(1, 6)}, {1, irange(7, 22)}, {1, rc::gen::element(0, -5, 23, 1000)}})
                             : rc::gen::just(0);
-    return rc::gen::map(rc::gen::pair(lvl, gen::segsGen(g_big)), [codec](const std::pair<int, std::vector<gen::Seg>> &p) { C c; c.codec = codec; c.level = p.first; c.segs = p.second; return c; });
+    // wholly incompressible inputs at the size classes where codecs switch strategy (stored-block sizes, window sizes): the
+    // compressed size is then closest to the advertised bound
+    auto incompressible = rc::gen::map(rc::gen::tuple(rc::gen::weightedOneOf<int>({{2, irange(4090, 4100)}, {2, irange(8186, 8200)}, {2, irange(12280, 12300)}, {4, irange(12300, 16384)}, {2, irange(16380, 16400)}, {2, irange(32760, 32780)}, {2, irange(65530, 65545)}, {2, irange(1, 4000)}, {1, irange(100000, 140000)}}), irange(0, 1 << 30), irange(0, 40)),
+                                       [](const std::tuple<int, int, int> &t) { gen::Seg a; a.kind = 0; a.len = (uint32_t)std::get<0>(t); a.seed = (uint32_t)std::get<1>(t); std::vector<gen::Seg> v{a}; if (std::get<2>(t) < 6) { gen::Seg b; b.kind = 1; b.len = (uint32_t)std::get<2>(t); b.a = 7; v.push_back(b); } return v; });
+    auto segs = rc::gen::weightedOneOf<std::vector<gen::Seg>>({{7, gen::segsGen(g_big)}, {1, incompressible}});
+    return rc::gen::map(rc::gen::pair(lvl, segs), [codec](const std::pair<int, std::vector<gen::Seg>> &p) { C c; c.codec = codec; c.level = p.first; c.segs = p.second; return c; });
   });
 }
 
